@@ -143,25 +143,38 @@ impl<T: RealNumber + ScalarOperand> BaseVector<T> for ArrayBase<OwnedRepr<T>, Ix
     }
 
     fn approximate_eq(&self, other: &Self, error: T) -> bool {
-        (self - other).iter().all(|v| v.abs() <= error)
+        // operands of different shape are simply not equal (the subtraction would broadcast or panic)
+        self.shape() == other.shape() && (self - other).iter().all(|v| v.abs() <= error)
     }
 
     fn add_mut(&mut self, other: &Self) -> &Self {
+        if self.shape() != other.shape() {
+            panic!("A and B should have the same shape");
+        }
         *self += other;
         self
     }
 
     fn sub_mut(&mut self, other: &Self) -> &Self {
+        if self.shape() != other.shape() {
+            panic!("A and B should have the same shape");
+        }
         *self -= other;
         self
     }
 
     fn mul_mut(&mut self, other: &Self) -> &Self {
+        if self.shape() != other.shape() {
+            panic!("A and B should have the same shape");
+        }
         *self *= other;
         self
     }
 
     fn div_mut(&mut self, other: &Self) -> &Self {
+        if self.shape() != other.shape() {
+            panic!("A and B should have the same shape");
+        }
         *self /= other;
         self
     }
@@ -178,6 +191,10 @@ impl<T: RealNumber + ScalarOperand> BaseVector<T> for ArrayBase<OwnedRepr<T>, Ix
     }
 
     fn copy_from(&mut self, other: &Self) {
+        // `assign` would silently broadcast a smaller operand
+        if self.shape() != other.shape() {
+            panic!("Can't copy: shapes {:?} and {:?} differ", other.shape(), self.shape());
+        }
         self.assign(other);
     }
 }
@@ -278,25 +295,38 @@ impl<T: RealNumber + ScalarOperand + AddAssign + SubAssign + MulAssign + DivAssi
     }
 
     fn approximate_eq(&self, other: &Self, error: T) -> bool {
-        (self - other).iter().all(|v| v.abs() <= error)
+        // operands of different shape are simply not equal (the subtraction would broadcast or panic)
+        self.shape() == other.shape() && (self - other).iter().all(|v| v.abs() <= error)
     }
 
     fn add_mut(&mut self, other: &Self) -> &Self {
+        if self.shape() != other.shape() {
+            panic!("A and B should have the same shape");
+        }
         *self += other;
         self
     }
 
     fn sub_mut(&mut self, other: &Self) -> &Self {
+        if self.shape() != other.shape() {
+            panic!("A and B should have the same shape");
+        }
         *self -= other;
         self
     }
 
     fn mul_mut(&mut self, other: &Self) -> &Self {
+        if self.shape() != other.shape() {
+            panic!("A and B should have the same shape");
+        }
         *self *= other;
         self
     }
 
     fn div_mut(&mut self, other: &Self) -> &Self {
+        if self.shape() != other.shape() {
+            panic!("A and B should have the same shape");
+        }
         *self /= other;
         self
     }
@@ -394,6 +424,10 @@ impl<T: RealNumber + ScalarOperand + AddAssign + SubAssign + MulAssign + DivAssi
     }
 
     fn copy_from(&mut self, other: &Self) {
+        // `assign` would silently broadcast a smaller operand
+        if self.shape() != other.shape() {
+            panic!("Can't copy: shapes {:?} and {:?} differ", other.shape(), self.shape());
+        }
         self.assign(other);
     }
 
